@@ -94,6 +94,9 @@ def generic_aggregate(
                 else:
                     logger.debug(f"numbagg too old for ddof={ddof}. Falling back to numpy")
                     method = get_npg_aggregation(func, engine="numpy")
+            elif func in ["nanfirst", "nanlast"] and array.dtype.kind in "mM":
+                # numbagg is handed datetimes as integers and so cannot skip NaT
+                method = get_npg_aggregation(func, engine="numpy")
             else:
                 method = getattr(aggregate_numbagg, func)
 
